@@ -14,14 +14,15 @@ for item in "$@"; do
   path=$(grep -oE '(eyeball[a-z-]*)/tests/[A-Za-z0-9_]+\.rs' "$d/demo_path.txt" | head -1)
   crate=${path%%/*}; tname=$(basename "$path" .rs)
   [ -n "$path" ] || { echo "$item: cannot parse demo path"; continue; }
+  feat=""; grep -q -- "--features async-lock" "$d/demo_path.txt" && feat="--features async-lock"
   cp "$d/demo.rs" "$wt/$path"
-  ( cd $wt && cargo test -q --offline -p $crate --test $tname >/tmp/confirm-$$.log 2>&1 ); r_without=$?
+  ( cd $wt && cargo test -q --offline -p $crate $feat --test $tname >/tmp/confirm-$$.log 2>&1 ); r_without=$?
   if ! git -C $wt apply --check "$d/patch.diff" 2>/dev/null; then echo "$item: PATCH DOES NOT APPLY at HEAD"; continue; fi
   git -C $wt apply "$d/patch.diff"
   mv "$wt/$path" /tmp/confirm-demo-$$.rs
-  ( cd $wt && cargo test -q --offline --workspace >/tmp/confirm-suite-$$.log 2>&1 ); r_suite=$?
+  ( cd $wt && cargo test -q --offline --workspace >/tmp/confirm-suite-$$.log 2>&1 && { [ -z "$feat" ] || cargo test -q --offline -p eyeball $feat >>/tmp/confirm-suite-$$.log 2>&1; } ); r_suite=$?
   cp /tmp/confirm-demo-$$.rs "$wt/$path"
-  ( cd $wt && cargo test -q --offline -p $crate --test $tname >/tmp/confirm-$$.log 2>&1 ); r_with=$?
+  ( cd $wt && cargo test -q --offline -p $crate $feat --test $tname >/tmp/confirm-$$.log 2>&1 ); r_with=$?
   echo "$item: demo_without_patch=$r_without suite_with_patch=$r_suite demo_with_patch=$r_with  => $([ $r_without = 0 ] && [ $r_suite = 0 ] && [ $r_with != 0 ] && echo CONFIRMED || echo REJECTED)"
 done
 git -C /repo worktree remove --force $wt
